@@ -207,7 +207,10 @@ def main():
         if os.path.isdir(corpus_dir):
             for f in sorted(os.listdir(corpus_dir)):
                 b = json.load(open(os.path.join(corpus_dir, f)))
-                corpus.append(dict(lines=b['script'], pool=b.get('pool') or 'int', tag='corpus ' + f, vr_eps=b.get('vr_eps')))
+                cc = dict(lines=b['script'], pool=b.get('pool') or 'int', tag='corpus ' + f, vr_eps=b.get('vr_eps'))
+                if b.get('cmp'):
+                    cc['cmp'] = {int(k): v for k, v in b['cmp'].items()}
+                corpus.append(cc)
         cases = corpus + list(suites.cases(pid, tier, seed))
         fails, stats, kinds, nd, samples = runner.run_cases(cases)
         for c in cases:
